@@ -26,62 +26,11 @@ static uint8_t *scratch1, *scratch2, *scratch3;
 
 static int want(const char *w) { return !strcmp(what, "all") || !strcmp(what, w); }
 
-/* ---- secrets (C14) ---- */
-#define MAXSEC 160
-static struct { uint8_t b[16]; char name[24]; } secs[MAXSEC];
-static int nsecs;
-static void sec_reset(void) { nsecs = 0; }
-static void sec_add(const uint8_t *p, const char *name, int idx)
-{
-	static const uint8_t z[16];
-	if (nsecs == MAXSEC || !memcmp(p, z, 16)) return;
-	/* low-entropy strings (e.g. all-equal bytes) could match poison: skip */
-	int same = 1; for (int i = 1; i < 16; i++) if (p[i] != p[0]) same = 0;
-	if (same) return;
-	memcpy(secs[nsecs].b, p, 16);
-	snprintf(secs[nsecs].name, sizeof secs[nsecs].name, "%s%d", name, idx);
-	nsecs++;
-}
-static void sec_add_key(const uint8_t *key, int keybits)
-{
-	ref_aes_key k; uint8_t dk[15][16];
-	ref_aes_expand(&k, key, keybits);
-	ref_aes_dec_schedule(&k, dk);
-	sec_add(key, "rawkey", 0);
-	if (keybits == 256) sec_add(key + 16, "rawkey", 1);
-	for (int r = 0; r <= k.nr; r++) { sec_add(k.rk[r], "enc_rk", r); if (r && r < k.nr) sec_add(dk[r], "dec_rk", r); }
-}
-static void secrets_scan(const char *fn, const char *shape)
-{
-	if (!secrets_mode || !nsecs) return;
-	static uint8_t filt[65536 / 8];
-	memset(filt, 0, sizeof filt);
-	for (int i = 0; i < nsecs; i++) { unsigned h = secs[i].b[0] | secs[i].b[1] << 8; filt[h >> 3] |= 1 << (h & 7); }
-	vk_stat("secret_scans", 1);
-	for (int pass = 0; pass < 2; pass++) {
-		const uint8_t *p = pass ? vk_env.stack_cap : &vk_env.zmm[0][0];
-		size_t n = pass ? VC_DEAD : (vk_have_avx512 ? 32 * 64 : 16 * 64);
-		if (!p) continue;
-		/* the top 8 bytes of the dead stack held the return address */
-		for (size_t o = 0; o + 16 <= n; o++) {
-			unsigned h = p[o] | p[o + 1] << 8;
-			if (!(filt[h >> 3] & (1 << (h & 7)))) continue;
-			for (int i = 0; i < nsecs; i++) if (!memcmp(p + o, secs[i].b, 16)) {
-				char key[200], where[64];
-				if (pass) snprintf(where, sizeof where, "stack");
-				else snprintf(where, sizeof where, "zmm%zu", o / 64);
-				/* key: function + kind of secret + register/stack (stable across shapes) */
-				char kind[24]; snprintf(kind, sizeof kind, "%s", secs[i].name);
-				for (char *c = kind; *c; c++) if (*c >= '0' && *c <= '9') { *c = 0; break; }
-				snprintf(key, sizeof key, "%s:%s:%s", fn, kind, pass ? "stack" : "vecreg");
-				vk_violation("C14", key, NULL, "%s leaves %s in %s (offset %zu%s) shape %s", fn, secs[i].name, where,
-					     pass ? VC_DEAD - o : o % 64, pass ? " bytes below the call's rsp" : "", shape);
-				o += 15;
-				break;
-			}
-		}
-	}
-}
+/* ---- secrets (C14): scanning lives in the kit ---- */
+#define sec_reset vk_sec_reset
+#define sec_add vk_sec_add
+#define sec_add_key vk_sec_add_key
+static void secrets_scan(const char *fn, const char *shape) { if (secrets_mode) vk_sec_scan(fn, shape); }
 
 /* ---- placement helpers ---- */
 static uint8_t *put_in(vk_slot *s, const void *data, size_t n, int place, size_t align, size_t midoff, size_t *poff)
@@ -129,6 +78,7 @@ static struct isal_gcm_key_data gcm_kd[4][2] __attribute__((aligned(64)));  /* [
 static uint8_t gcm_rawkey[2][32];
 static uint8_t gcm_iv[12];
 
+static void gcm_secrets(int f, int ks);
 static void gcm_prepare_keys(void)
 {
 	for (int ks = 0; ks < 2; ks++) {
@@ -147,7 +97,8 @@ static void gcm_prepare_keys(void)
 			size_t off = vk_place(&s_ctx, sizeof(struct isal_gcm_key_data), VK_END, 16, 0);
 			vk_canary_fill(&s_ctx);
 			memcpy(s_ctx.rw + off, &gcm_kd[f][ks], sizeof gcm_kd[f][ks]);
-			if (VK_TRY()) { VCALLN(fn, nm, AP(s_ctx.rw + off)); VK_END_TRY(); memcpy(&gcm_kd[f][ks], s_ctx.rw + off, sizeof gcm_kd[f][ks]); canary_report(nm, "key_data", &s_ctx, off, sizeof(struct isal_gcm_key_data), "precomp"); }
+			if (VK_TRY()) { VCALLN(fn, nm, AP(s_ctx.rw + off)); VK_END_TRY(); memcpy(&gcm_kd[f][ks], s_ctx.rw + off, sizeof gcm_kd[f][ks]); canary_report(nm, "key_data", &s_ctx, off, sizeof(struct isal_gcm_key_data), "precomp");
+				if (secrets_mode && vk_shard == 0) { gcm_secrets(f, ks); secrets_scan(nm, "precomp"); } }
 			else fault_report(nm, "precomp");
 		}
 	}
@@ -238,6 +189,46 @@ static void gcm_call(int f, int ks, int dec, int nt, size_t len, size_t aad, int
 	vk_distinct("shape", vk_hash(shape, strlen(shape), vk_hash(nm, strlen(nm), 1)));
 }
 
+/* key-precompute entry points (public, legacy, internal C wrapper) bound to every keyexp x precomp family */
+static void gcm_pre_scan(void)
+{
+	static const char *kx[2] = { "sse", "avx" };
+	for (int ks = 0; ks < 2; ks++) for (int kf = 0; kf < 2; kf++) for (int f = 0; f < 4; f++) for (int e = 0; e < 3; e++) {
+		int bits = ks ? 256 : 128;
+		char b[96], en[64];
+		if (!vk_host_can(gcm_need[f]) || !vk_host_can(kf ? VK_F_AVX : VK_F_SSE)) continue;
+		snprintf(b, sizeof b, "_aes_keyexp_%d_dispatched", bits); void **s1 = vk_sym(b);
+		snprintf(b, sizeof b, "_aes_gcm_precomp_%d_dispatched", bits); void **s2 = vk_sym(b);
+		snprintf(b, sizeof b, "_aes_keyexp_%d_%s", bits, kx[kf]); void *t1 = vk_sym(b);
+		snprintf(b, sizeof b, "_aes_gcm_precomp_%d_%s", bits, gcm_fams[f]); void *t2 = vk_sym(b);
+		snprintf(en, sizeof en, e == 0 ? "isal_aes_gcm_pre_%d" : e == 1 ? "aes_gcm_pre_%d" : "_aes_gcm_pre_%d", bits);
+		void *fn = vk_sym(en);
+		if (!s1 || !s2 || !t1 || !t2 || !fn) { vk_stat("missing_symbol", 1); continue; }
+		*s1 = t1; *s2 = t2;
+		char nm[128], shape[64]; snprintf(nm, sizeof nm, "%s[keyexp_%s,precomp_%s]", en, kx[kf], gcm_fams[f]);
+		snprintf(shape, sizeof shape, "key%d", bits);
+		size_t off = vk_place(&s_ctx, sizeof(struct isal_gcm_key_data), VK_END, 16, 0);
+		vk_canary_fill(&s_ctx);
+		const uint8_t *pk = put_in(&s_key, gcm_rawkey[ks], bits / 8, VK_END, 1, 0, NULL);
+		int faulted = 0;
+		if (VK_TRY()) { VCALLN(fn, nm, AP(pk), AP(s_ctx.rw + off)); VK_END_TRY(); } else faulted = 1;
+		vk_stat("calls_gcm_pre", 1);
+		if (faulted) { fault_report(nm, shape); continue; }
+		canary_report(nm, "key_data", &s_ctx, off, sizeof(struct isal_gcm_key_data), shape);
+		/* defined part of the key data: (rounds+1) round keys and the hash-key table (first 8 powers) */
+		if (func_check && !secrets_mode && (memcmp(s_ctx.rw + off, &gcm_kd[f][ks], 16 * (ks ? 15 : 11)) ||
+		    memcmp(s_ctx.rw + off + offsetof(struct isal_gcm_key_data, shifted_hkey_1), gcm_kd[f][ks].shifted_hkey_1, 16 * 8))) {
+			char key[160]; snprintf(key, sizeof key, "%s:keydata", nm);
+			vk_violation("C02", key, NULL, "%s key data differs from the family precompute over the FIPS-197 schedule", nm);
+		}
+		if (secrets_mode) {
+			memcpy(&gcm_kd[f][ks], s_ctx.rw + off, sizeof gcm_kd[f][ks]);
+			gcm_secrets(f, ks);
+			secrets_scan(nm, shape);
+		}
+	}
+}
+
 static void gcm_sweep(void)
 {
 	static const int aad_quick[] = { 0, 1, 15, 16, 17, 20, 32, 48, 65 };
@@ -256,6 +247,7 @@ static void gcm_sweep(void)
 		for (size_t l = 65536 - w; l <= 65536 + (size_t)w; l++) lens[nl++] = l;
 	} else { lens[nl++] = 2048; lens[nl++] = 4097; }
 	gcm_prepare_keys();
+	if (vk_shard == 0) gcm_pre_scan();
 	vk_fill(gcm_aad, sizeof gcm_aad, 0xaad);
 	uint8_t *o1 = scratch1, *o2 = scratch2, t1[16], t2[16];
 	for (int li = 0; li < nl; li++) {
@@ -482,7 +474,7 @@ static void cbc_ref_get(int ks, size_t len)
 	vk_stat("reference_computations", 1);
 }
 static void cbc_call(int dec, int f, int ks, size_t len, int place, size_t midoff, int inplace, uint8_t prefill, uint64_t poison,
-		     uint8_t *outcopy, int *faulted)
+		     uint8_t *outcopy, int *faulted, int entry)
 {
 	static const int kb[3] = { 128, 192, 256 };
 	char nm[96], shape[160];
@@ -491,6 +483,18 @@ static void cbc_call(int dec, int f, int ks, size_t len, int place, size_t midof
 	void *fn = vk_sym(nm);
 	*faulted = 2;
 	if (!fn) { vk_stat("missing_symbol", 1); return; }
+	if (entry) {
+		/* public (1) or legacy (2) entry point with the dispatch slot re-pointed to this family */
+		char sn[96], en[96];
+		snprintf(sn, sizeof sn, "_aes_cbc_%s_%d_dispatched", dec ? "dec" : "enc", bits);
+		void **slot = vk_sym(sn);
+		snprintf(en, sizeof en, "%saes_cbc_%s_%d", entry == 1 ? "isal_" : "", dec ? "dec" : "enc", bits);
+		void *efn = vk_sym(en);
+		if (!slot || !efn) { vk_stat("missing_symbol", 1); return; }
+		*slot = fn;
+		snprintf(nm, sizeof nm, "%s[%s]", en, dec ? cbc_dec_fams[f] : cbc_enc_fams[f]);
+		fn = efn;
+	}
 	snprintf(shape, sizeof shape, "len=%zu place=%s off=%zu inplace=%d", len, place == VK_END ? "end" : place == VK_START ? "start" : "mid", midoff, inplace);
 	ref_aes_key k; uint8_t sched[15][16];
 	ref_aes_expand(&k, cbc_key, bits);
@@ -542,18 +546,23 @@ static void cbc_sweep(void)
 			if (dec && !vk_host_can(cbc_dec_need[f])) { vk_stat("skipped_family_not_executable_on_host", 1); continue; }
 			if (!dec && !vk_host_can(VK_F_SSE)) continue;
 			if (guard_mode) {
-				for (int pl = VK_END; pl <= VK_START; pl++) for (int ip = 0; ip < 2; ip++) cbc_call(dec, f, ks, len, pl, 0, ip, 0, 0x5a5a5a5a5a5a5a5aULL, NULL, &fl);
+				/* the zero-length request is part of the public operation's domain: it is made through the
+				 * public and legacy entry points bound to this family (family symbols are internal) */
+				for (int pl = VK_END; pl <= VK_START; pl++) for (int ip = 0; ip < 2; ip++) {
+					if (len == 0) { cbc_call(dec, f, ks, len, pl, 0, ip, 0, 0x5a5a5a5a5a5a5a5aULL, NULL, &fl, 1); cbc_call(dec, f, ks, len, pl, 0, ip, 0, 0x5a5a5a5a5a5a5a5aULL, NULL, &fl, 2); }
+					else cbc_call(dec, f, ks, len, pl, 0, ip, 0, 0x5a5a5a5a5a5a5a5aULL, NULL, &fl, 0);
+				}
 			} else if (pair_mode) {
-				cbc_call(dec, f, ks, len, VK_MID, len % 13, li & 1, 0x00, 0x1111111111111111ULL, o1, &fl);
-				cbc_call(dec, f, ks, len, VK_MID, len % 13, li & 1, 0xff, 0xfedcba9876543210ULL, o2, &fl2);
+				cbc_call(dec, f, ks, len, VK_MID, len % 13, li & 1, 0x00, 0x1111111111111111ULL, o1, &fl, 0);
+				cbc_call(dec, f, ks, len, VK_MID, len % 13, li & 1, 0xff, 0xfedcba9876543210ULL, o2, &fl2, 0);
 				if (!fl && !fl2 && memcmp(o1, o2, len)) { char key[128]; snprintf(key, sizeof key, "cbc_%s_%d_%d:pair", dec ? "dec" : "enc", ks, f); vk_violation("C20", key, NULL, "result depends on hidden inputs: len=%zu", len); }
 				vk_stat("pairs", 1);
 			} else if (secrets_mode) {
-				cbc_call(dec, f, ks, len, VK_MID, 0, 0, 0, 0x5a5a5a5a5a5a5a5aULL, NULL, &fl);
+				cbc_call(dec, f, ks, len, VK_MID, 0, 0, 0, 0x5a5a5a5a5a5a5a5aULL, NULL, &fl, 0);
 			} else {
 				int noff = vk_thorough ? 16 : 3;
 				for (int oi = 0; oi < noff; oi++) for (int ip = 0; ip < 2; ip++)
-					cbc_call(dec, f, ks, len, VK_MID, vk_thorough ? (size_t)oi : (size_t)(oi * 7) % 16, ip, 0x3c, 0x5a5a5a5a5a5a5a5aULL, NULL, &fl);
+					cbc_call(dec, f, ks, len, VK_MID, vk_thorough ? (size_t)oi : (size_t)(oi * 7) % 16, ip, 0x3c, 0x5a5a5a5a5a5a5a5aULL, NULL, &fl, 0);
 			}
 		}
 	}
